@@ -7,7 +7,7 @@
 (* A record r = [id, tool, o |-> [must, mode, noise], tr, code, exp] holds *)
 (*   tr    the events of the run in the order they were observed: args /   *)
 (*         validate (wrappers around processcli / validateargs), load      *)
-(*         (wrappers around the loader calls; via = file | stdin), work    *)
+(*         (wrappers around the loader calls; via = file | dash | implicit), work    *)
 (*         (wrappers around the library calls the tool makes), output      *)
 (*         (what reached stdout / the result document) and exit (the       *)
 (*         process exit status);                                           *)
@@ -17,8 +17,8 @@
 (* A record is accepted iff every event is enabled where it occurs (so the *)
 (* exit status is one the table gives for the OBSERVED library outcome and *)
 (* the output is the one the state allows), the run is finished, the       *)
-(* statements of C16 hold in the final state, and the twin run with the    *)
-(* deliveries exchanged is accepted and ends in the same state.  The       *)
+(* statements of C16 hold in the final state, and the same run with every  *)
+(* document delivered as a file is accepted and ends in the same state.  The       *)
 (* verdict also returns `want`: the exit codes the table gives when the    *)
 (* observed library outcome is replaced by the predicted one.              *)
 (***************************************************************************)
@@ -38,13 +38,13 @@ Verdict(r) ==
   LET o == Opts(r.o.must, r.o.mode, r.o.noise)
       good == r.tool \in Tools /\ OptsOK(o)
       v == IF good THEN Run(r.tool, o, r.tr) ELSE [ok |-> FALSE, at |-> 0, s |-> Init0("get", o)]
-      t == IF good THEN Run(r.tool, o, Twin(r.tr)) ELSE v
+      t == IF good THEN Run(r.tool, o, AllFile(r.tr)) ELSE v
       why == IF ~good THEN "options"
              ELSE IF ~v.ok THEN "not-enabled:" \o r.tr[v.at].ph
              ELSE IF v.s.pc # "Done" THEN "unfinished"
              ELSE IF v.s.code # r.code THEN "status"
              ELSE IF ~Honest(v.s) THEN "dishonest"
-             ELSE IF ~t.ok \/ t.s # v.s THEN "delivery"
+             ELSE IF ~t.ok \/ Core(t.s) # Core(v.s) THEN "delivery"
              ELSE ""
   IN [id |-> r.id, ok |-> (why = ""), at |-> v.at, why |-> why, pc |-> v.s.pc, k |-> v.s.lib.k, n |-> v.s.lib.n,
       codes |-> SetToSeq(Codes(v.s)), want |-> SetToSeq(Codes(WithExp(v.s, r.exp)))]
